@@ -66,9 +66,18 @@ pub fn soup_value(rng: &mut Rng, depth: usize) -> String {
         21 => format!("{} # {}", soup_value(rng, depth + 1), soup_value(rng, depth + 1)),
         22 => format!("!cond({}: {}, true: {})", soup_value(rng, depth + 1), soup_value(rng, depth + 1), soup_value(rng, depth + 1)),
         23 => format!("!{}({})", ["head", "tail", "size", "empty", "not", "isa<A>", "getdagop", "listflatten"][rng.below(8)], soup_value(rng, depth + 1)),
+        24 if rng.chance(1, 3) => format!("{}<{} = {}>", nm(rng), name_string(rng), soup_value(rng, depth + 1)),
         24 => format!("{}<\"{}\" = {}>", nm(rng), fd(rng), soup_value(rng, depth + 1)),
         _ => "[]".into(),
     }
+}
+
+/// string literals whose text is needed by the analysis where they stand (names of defs and defms, names of
+/// named arguments, include paths): escapes at the end and at the beginning, empty, non-ASCII, path-like
+const NAME_STRINGS: [&str; 12] = ["\"\\\"\"", "\"x\\\"\"", "\"\\\\\"", "\"a\\\\\\\"\"", "\"\\t\\n\"", "\"\"", "\"é\"", "\"a b\"", "\"../root.td\"", "\"\\'\"", "\"\\\"\\\"\"", "\"_\\\"_\""];
+
+fn name_string(rng: &mut Rng) -> &'static str {
+    NAME_STRINGS[rng.below(NAME_STRINGS.len())]
 }
 
 fn soup_class_ref(rng: &mut Rng) -> String {
@@ -118,15 +127,17 @@ pub fn soup_statement(rng: &mut Rng, depth: usize) -> String {
             format!("class {}{}{}{}", nm(rng), targs, soup_parents(rng), soup_body(rng))
         }
         2 | 3 => {
-            let name = match rng.below(5) {
+            let name = match rng.below(7) {
                 0 => String::new(),
                 1 => format!("{}#{}", nm(rng), vr(rng)),
+                5 => name_string(rng).to_string(),
+                6 => format!("{}#{}", if rng.chance(1, 2) { "NAME" } else { nm(rng) }, name_string(rng)),
                 _ => nm(rng).to_string(),
             };
             format!("def {}{}{}", name, soup_parents(rng), soup_body(rng))
         }
         4 => format!("defvar {} = {};", vr(rng), soup_value(rng, 0)),
-        5 => format!("defm {}{};", if rng.chance(1, 4) { "" } else { nm(rng) }, soup_parents(rng)),
+        5 => format!("defm {}{};", if rng.chance(1, 4) { "" } else if rng.chance(1, 5) { name_string(rng) } else { nm(rng) }, soup_parents(rng)),
         6 => {
             let targs = if rng.chance(1, 2) { format!("<{} {}>", soup_type(rng), vr(rng)) } else { String::new() };
             let mut s = format!("multiclass {}{}{} {{\n", nm(rng), targs, soup_parents(rng));
@@ -134,6 +145,7 @@ pub fn soup_statement(rng: &mut Rng, depth: usize) -> String {
                 let st = match rng.below(4) {
                     0 => format!("defm _{}{};", fd(rng), soup_parents(rng)),
                     1 => format!("defvar {} = {};", vr(rng), soup_value(rng, 1)),
+                    2 if rng.chance(1, 3) => format!("def NAME#{}{}{}", name_string(rng), soup_parents(rng), soup_body(rng)),
                     _ => format!("def _{}{}{}", fd(rng), soup_parents(rng), soup_body(rng)),
                 };
                 s.push_str("  ");
@@ -167,7 +179,10 @@ pub fn soup_program(rng: &mut Rng, n: usize) -> String {
     s
 }
 
-pub const STRESS: [&str; 28] = [
+pub const STRESS: [&str; 30] = [
+    // string literals in the places where the analysis needs their text
+    "class C<int a>;\nmulticlass M { def NAME#\"_\\\"\" : C<\"a\\\"\" = 1>; def \"\\\\\"; }\ndef \"x\\\"\" : C<\"\\\"\" = 1>;\ndefm \"y\\\"\" : M;\ndefm \"\\\"\" : M;\ninclude \"inc\\\"\"\ninclude \"\\\"\"\ndef \"\" : C<\"\" = 2>;",
+    "class C<int a>;\ndef \"\\t\" : C<\"\\n\" = 1>;\ndef \"\\\\\" # \"\\\"\";\nforeach i = [\"\\\"\", \"\\\\\"] in def X#i#\"\\\"\" : C<1>;\ninclude \"\\\\\"",
     // records with composed names: defined by a defm, by a def with a pasted name, in a loop
     "class I;\nmulticlass M2 { def _q : I; }\nmulticlass M { def I : I; def \"\" : I; def NAME#\"_x\" : I; def NAME#\"_\"#NAME; defm _in : M2; defm NAME : M2; }\ndefm SLL : M;\ndef u { I a = SLLI; I b = SLL; I c = SLL_x; I d = SLL_in_q; I e = SLLnope; I f = SLL_q; I g = SLL_SLL; }",
     "class K;\nforeach i = 0-3 in def R#i : K;\ndef ADD#_rr : K;\ndef SUB#\"_rr\" : K;\ndefm LOAD#_acq : NoSuch;\ndef u { dag d = (ADD_rr R0, R3, SUB_rr, R9, Rx, R, ADD, LOAD_acq); K k = R1; int n = R2.x; }\ndef ADD_rr : K;\ndef v { K k = ADD_rr; }",
@@ -213,6 +228,9 @@ fn with_includes(rng: &mut Rng, root_text: String, make: &mut dyn FnMut(&mut Rng
     }
     if rng.chance(1, 6) {
         root.push_str("include \"missing.td\"\n");
+    }
+    if rng.chance(1, 8) {
+        root.push_str(&format!("include {}\n", name_string(rng)));
     }
     root.push_str(&root_text);
     // include statements nested in blocks (defset / let / foreach / if bodies)
